@@ -224,7 +224,7 @@ def size_known(r) -> bool:
     return not size_bad(r) and (is_int(size_val(r)) or (isinstance(size_val(r), Constant) and is_int(size_val(r)._value)))
 
 
-@contract("core.register:NamedQubit.resolve_qubit", props=["C06", "C14", "C16"])
+@contract("core.register:NamedQubit.resolve_qubit", props=["C06", "C14", "C16"], primary=False)
 class QubitResolve:
     def requires(self, context):
         return wf_qubit(self) and (context is None or isinstance(context, dict))
@@ -340,3 +340,119 @@ class RegisterInit:
 
     def ensures_fields(self, name, size, alias_from, alias_slice, result):
         return same(self._name, name) and same(self._size, size) and same(self._alias_from, alias_from) and same(self._alias_slice, alias_slice)
+
+
+# ---------------------------------------------------------------- C07 / C13: references that mention macro parameters
+from jaqalpaq.core.parameter import Parameter
+
+
+@contract("core.parameter:AnnotatedValue.resolve_value", props=["C07", "C13", "C16"])
+class ResolveValue:
+    """a parameter denotes what the context binds its NAME to - and nothing but JaqalError when it is unbound"""
+
+    def requires(self, context):
+        return isinstance(self, AnnotatedValue) and is_str(self._name) and (context is None or isinstance(context, dict))
+
+    def raises_JaqalError(self, context):
+        return context is None or len(context) == 0 or not has_key(context, self._name)
+
+    raises_only = ("JaqalError",)
+
+    def ensures(self, context, result):
+        return same(result, dict_lookup(context, self._name))
+
+
+@spec
+def bound_idx(q, ctx):
+    """the index of a reference in a scope: a parameter index is what the scope binds it to"""
+    if type_is(q._alias_index, Parameter):
+        return dict_lookup(ctx, q._alias_index._name)
+    return q._alias_index
+
+
+@spec
+def bound_reg(q, ctx):
+    if type_is(q._alias_from, Parameter):
+        return dict_lookup(ctx, q._alias_from._name)
+    return q._alias_from
+
+
+@spec
+def wf_pqubit(q, ctx) -> bool:
+    """a reference r[i] in a macro body whose r and/or i may be parameters, in a scope that binds them to a
+    register and an integer"""
+    return (type_is(q, NamedQubit) and isinstance(ctx, dict) and len(ctx) >= 1
+            and (type_is(q._alias_index, Parameter) or type_is(q._alias_from, Parameter))
+            and (type_is(q._alias_index, Parameter) or is_int(q._alias_index))
+            and (type_is(q._alias_from, Parameter) or wf_reg(q._alias_from))
+            and implies(type_is(q._alias_index, Parameter), is_str(q._alias_index._name) and has_key(ctx, q._alias_index._name) and is_int(dict_lookup(ctx, q._alias_index._name)))
+            and implies(type_is(q._alias_from, Parameter), is_str(q._alias_from._name) and has_key(ctx, q._alias_from._name) and wf_reg(dict_lookup(ctx, q._alias_from._name))))
+
+
+@contract("core.register:NamedQubit.resolve_qubit", props=["C07", "C13", "C06"], primary=False)
+class QubitResolveInScope:
+    """C07/C13: a reference written with macro parameters resolves, in a scope, to the physical qubit of the C06
+    specification applied to what THAT scope binds the parameters to"""
+
+    def requires(self, context):
+        return wf_pqubit(self, context)
+
+    def ensures_shape(self, context, result):
+        return isinstance(result, tuple) and len(result) == 2
+
+    def ensures_root(self, context, result):
+        return same(result[0], root(bound_reg(self, context)))
+
+    def ensures_index(self, context, result):
+        return is_int(result[1]) and result[1] == phys(bound_reg(self, context), bound_idx(self, context))
+
+    def ensures_root_fundamental(self, context, result):
+        return wf_reg(result[0]) and result[0]._alias_from is None and 0 <= result[1] and result[1] < size_of(result[0]) and not size_bad(result[0])
+
+    def raises_JaqalError(self, context):
+        return chain_bad(bound_reg(self, context), bound_idx(self, context))
+
+    raises_only = ("JaqalError",)
+
+    def inv_1(self, context, alias_index, alias_from, _k):
+        return (same(alias_from, self._alias_from)
+                and (same(alias_index, self._alias_index) or same(alias_index, bound_idx(self, context))))
+
+    def inv_2(self, context, alias_index, alias_from, _k):
+        return (same(alias_index, bound_idx(self, context))
+                and (same(alias_from, self._alias_from) or same(alias_from, bound_reg(self, context))))
+
+
+@contract("core.register:NamedQubit.resolve_qubit", props=["C06", "C07", "C13"])
+class QubitResolveAny:
+    """the two cases above as one contract (this is the one call sites use): a literal / let-indexed reference into a
+    register, or a reference written with macro parameters in a scope that binds them"""
+
+    def requires(self, context):
+        return (wf_qubit(self) and (context is None or isinstance(context, dict))) or wf_pqubit(self, context)
+
+    def ensures_shape(self, context, result):
+        return isinstance(result, tuple) and len(result) == 2
+
+    def ensures_root(self, context, result):
+        return same(result[0], root(bound_reg(self, context)))
+
+    def ensures_index(self, context, result):
+        return is_int(result[1]) and result[1] == phys(bound_reg(self, context), ival(bound_idx(self, context)))
+
+    def ensures_root_fundamental(self, context, result):
+        return wf_reg(result[0]) and result[0]._alias_from is None and 0 <= result[1] and result[1] < size_of(result[0]) and not size_bad(result[0])
+
+    def raises_JaqalError(self, context):
+        return chain_bad(bound_reg(self, context), ival(bound_idx(self, context)))
+
+    raises_only = ("JaqalError",)
+
+    def inv_1(self, context, alias_index, alias_from, _k):
+        return (same(alias_from, self._alias_from)
+                and (same(alias_index, self._alias_index)
+                     or (is_intconst(alias_index) and ival(alias_index) == ival(bound_idx(self, old(context))))))
+
+    def inv_2(self, context, alias_index, alias_from, _k):
+        return (is_int(alias_index) and alias_index == ival(bound_idx(self, old(context)))
+                and (same(alias_from, self._alias_from) or same(alias_from, bound_reg(self, old(context)))))
